@@ -113,12 +113,14 @@ def run(tier, chk):
     quick = tier == 'quick'
     items = gen_derived(4 if not quick else 3, [8, 32], ['+', '-', '&', '<<', '=='], ['plain'], chk)
     items += gen_derived(3, [1, 8, 16, 32], ['+', '*', '>>>'], ['plain'], chk)
-    pats = gen_derived(3, [8, 32], ['+', '-', '&', '<<', '=='], ['pat', 'patmut'], chk)
+    pats = gen_derived(3, [8, 32], ['+', '-', '&', '<<', '=='], ['pat', 'patmut', 'patpart'], chk)
     # widths 8/16/32: concatenations (8+8, 16+16, 8+... ) and slices between all of them occur as patterns and mutated non-instances
-    pats += gen_derived(3, [8, 16, 32], ['+', '&'], ['pat', 'patmut'], chk)
+    pats += gen_derived(3, [8, 16, 32], ['+', '&'], ['pat', 'patmut', 'patpart'], chk)
     if quick:
         pats = [x for x in pats if rnd.random() < 0.3]
         items = [x for x in items if rnd.random() < 0.6]
+    # slices of concatenations (a slice that starts or ends inside a part) need four nodes and the width 16
+    items += [x for x in gen_derived(4, [8, 16], ['+'], ['plain'], chk) if x['e']['k'] in ('slice', 'compose', 'cond', 'mem')]
     if quick:
         # conditions, slices and memory cells under another node need four nodes: a narrower alphabet at that bound
         more = gen_derived(4, [8, 32], ['+', '=='], ['plain'], chk)
